@@ -8,19 +8,31 @@ package proj
 
 import (
 	"fmt"
+	"strings"
 
 	"github.com/hattya/go.sh/ast"
+	"github.com/hattya/go.sh/printer"
 )
 
 // Skel is the result of projecting a list of commands.
 type Skel struct {
 	Sk     []string // skeleton without shape tags
 	Shapes []string // one per command slot, in pre-order: List, AndOrList, Pipeline, Cmd
+	Hd     []HdObs  // here-documents in source order, printed back to text
+}
+
+// HdObs is the text of one here-document as found in the AST.
+type HdObs struct {
+	Op    string `json:"op"`
+	Body  string `json:"body"`
+	Delim string `json:"dl"`
+	Set   bool   `json:"set"` // Redir.Heredoc / Delim were attached at all
 }
 
 type skb struct {
 	sk     []string
 	shapes []string
+	hd     []HdObs
 }
 
 func (b *skb) add(s ...string) { b.sk = append(b.sk, s...) }
@@ -35,7 +47,18 @@ func Commands(cmds []ast.Command) (s Skel, err error) {
 	}()
 	b := &skb{}
 	b.clist(cmds)
-	return Skel{Sk: nonNil(b.sk), Shapes: nonNil(b.shapes)}, nil
+	if b.hd == nil {
+		b.hd = []HdObs{}
+	}
+	return Skel{Sk: nonNil(b.sk), Shapes: nonNil(b.shapes), Hd: b.hd}, nil
+}
+
+func printWord(w ast.Word) string {
+	var sb strings.Builder
+	if err := printer.Fprint(&sb, w); err != nil {
+		return "PRINT-ERROR: " + err.Error()
+	}
+	return sb.String()
 }
 
 // Word projects a single word.
@@ -244,6 +267,9 @@ func (b *skb) redir(r *ast.Redir) {
 	}
 	b.add("rop:" + r.Op)
 	b.word(r.Word)
+	if r.Op == "<<" || r.Op == "<<-" {
+		b.hd = append(b.hd, HdObs{Op: r.Op, Body: printWord(r.Heredoc), Delim: printWord(r.Delim), Set: r.Heredoc != nil || r.Delim != nil})
+	}
 	if r.Heredoc != nil || r.Delim != nil {
 		b.add("body[")
 		b.parts(mergeLits(r.Heredoc))
